@@ -80,10 +80,29 @@ func (r C09Req) raw() []byte {
 // checked for leaked file contents.
 var shellish = regexp.MustCompile(`(?i)^/+(i|o|io|c|%69|%6f|%63|%69%6f|i%6f|%69o)(/|$|\?)`)
 
-// isShellish applies shellish to the path part of a target.
+// isShellish predicts (generously) whether the mux may route the target to a
+// shell endpoint.  It follows net/http: the path the mux sees is
+// URL.EscapedPath(), which falls back to re-escaping the *decoded* path when
+// the raw path is not a valid encoding (e.g. contains a raw backslash) - then
+// a %2f has become a real separator.  Segments are unescaped one by one.
 func isShellish(target string) bool {
-	target = strings.TrimPrefix(target, "https://files.example")
-	return shellish.MatchString(target)
+	if shellish.MatchString(strings.TrimPrefix(target, "https://files.example")) {
+		return true
+	}
+	u, err := url.ParseRequestURI(target)
+	if err != nil {
+		return false
+	}
+	segs := strings.Split(strings.TrimLeft(u.EscapedPath(), "/"), "/")
+	first, err := url.PathUnescape(segs[0])
+	if err != nil {
+		first = segs[0]
+	}
+	switch strings.ToLower(first) {
+	case "i", "o", "io", "c":
+		return true
+	}
+	return false
 }
 
 type treeInfo struct {
@@ -282,7 +301,7 @@ func runC09(t testing.TB, c C09Case) (key, what string, st c09Stats) {
 							win = append(win, clip(l.CL.Line, 80))
 						}
 					}
-					return "file-request-not-reported", fmt.Sprintf("%s: answered %d (%d body bytes, final target %q) by the file handler but no 'File requested' notice; notices since the request: %q", desc, res.Status, len(res.Body), clip(cur.target(), 80), win), st
+					return "file-request-not-reported", fmt.Sprintf("%s: answered %d (%d body bytes, headers %v, final target %q, full request %d bytes ending %q) by the file handler but no 'File requested' notice; notices since the request: %q", desc, res.Status, len(res.Body), res.Header, clip(cur.target(), 80), len(cur.raw()), tailStr(string(cur.raw()), 120), win), st
 				}
 			}
 		}
@@ -465,4 +484,11 @@ func TestC09(t *testing.T) {
 			rt.Fatalf("%v", cc.Violation("TestC09", k, w, c, nil))
 		}
 	})
+}
+
+func tailStr(s string, n int) string {
+	if len(s) > n {
+		return "..." + s[len(s)-n:]
+	}
+	return s
 }
